@@ -5,6 +5,7 @@ mod cli;
 mod engine;
 mod gen;
 mod model;
+mod ops;
 mod rng;
 
 use engine::{Check, Tier};
